@@ -68,6 +68,10 @@ pub struct Case {
     pub data: Vec<u8>,
     /// `g<len>.<seed>` when the data is generated rather than spelled out
     pub data_spec: Option<String>,
+    /// same for the pre-buffered bytes
+    pub pre_spec: Option<String>,
+    /// `big=1`: implementation-side oracles only
+    pub big: bool,
     pub sched: Vec<Ev>,
     pub ops: Vec<Op>,
 }
@@ -75,14 +79,15 @@ pub struct Case {
 impl Case {
     pub fn line(&self) -> String {
         format!(
-            "reader c={} f={} pre={} m={} d={} s={} o={}",
+            "reader c={} f={} pre={} m={} d={} s={} o={}{}",
             self.chunk,
             self.fault as u8,
-            hex(&self.pre),
+            match &self.pre_spec { Some(g) => g.clone(), None => hex(&self.pre) },
             self.pre_consumed,
             match &self.data_spec { Some(g) => g.clone(), None => hex(&self.data) },
             fmt_sched(&self.sched),
-            fmt_ops(&self.ops)
+            fmt_ops(&self.ops),
+            if self.big { " big=1" } else { "" }
         )
     }
     pub fn parse(line: &str) -> Case {
@@ -94,6 +99,8 @@ impl Case {
             pre_consumed: f.num("m"),
             data: data_field(f.get("d")),
             data_spec: if f.get("d").starts_with('g') { Some(f.get("d").to_string()) } else { None },
+            pre_spec: if f.get("pre").starts_with('g') { Some(f.get("pre").to_string()) } else { None },
+            big: f.opt("big") == Some("1"),
             sched: parse_sched(f.get("s")),
             ops: parse_ops(f.get("o")),
         }
@@ -110,6 +117,8 @@ pub struct Live<'a> {
     pub mark: u64,
     pub taken: bool,
     pub total_len: usize,
+    /// the chunk size the reader currently has (for the read-count oracle)
+    pub chunk_now: usize,
     pub fails: Vec<String>,
 }
 
@@ -137,14 +146,68 @@ impl<'a> Live<'a> {
             mark: 0,
             taken: false,
             total_len: c.pre.len() + c.data.len(),
+            chunk_now: c.chunk,
             fails: vec![],
         }
     }
 
-    fn stream(&self) -> Vec<u8> {
-        let mut v = self.pre.clone();
-        v.extend_from_slice(&self.src.0.borrow().log);
-        v
+    /// honest stream = pre ++ src.log; the helpers below look at it in place (it is several MiB
+    /// in the scale family and is consulted after every op)
+    fn stream_len(&self) -> usize {
+        self.pre.len() + self.src.0.borrow().log.len()
+    }
+
+    fn stream_byte(&self, i: usize) -> Option<u8> {
+        if i < self.pre.len() {
+            Some(self.pre[i])
+        } else {
+            self.src.0.borrow().log.get(i - self.pre.len()).copied()
+        }
+    }
+
+    /// `stream[from .. from + w.len()] == w` (false if the stream is shorter)
+    fn stream_has_at(&self, from: usize, w: &[u8]) -> bool {
+        let s = self.src.0.borrow();
+        let (pl, end) = (self.pre.len(), from + w.len());
+        if end > pl + s.log.len() {
+            return false;
+        }
+        let in_pre = pl.saturating_sub(from).min(w.len());
+        (in_pre == 0 || self.pre[from..from + in_pre] == w[..in_pre])
+            && (in_pre == w.len() || s.log[from + in_pre - pl..end - pl] == w[in_pre..])
+    }
+
+    /// The number of successful reads a request needs that wants `target` bytes buffered, given
+    /// what the source is scheduled to deliver per call: every refill is one successful read and
+    /// the request stops refilling as soon as it is satisfied (C09).  `None`: not predictable here
+    /// (bytes of a `BufReader` still pending, a lying source ahead).
+    fn reads_needed(&self, target: usize) -> Option<usize> {
+        let s = self.src.0.borrow();
+        if !(self.pre.is_empty() || s.calls > 0) {
+            return None;
+        }
+        if self.r.is_complete() {
+            return Some(0);
+        }
+        let mut have = self.r.buf_len();
+        let mut remaining = s.data.len() - s.off;
+        let mut prod = 0;
+        let mut it = s.sched.iter();
+        while have < target {
+            let d = match it.next() {
+                Some(Ev::Intr) => continue,
+                Some(Ev::Lie(_)) => return None,
+                Some(Ev::Give(g)) => (*g).max(1).min(self.chunk_now).min(remaining),
+                None => self.chunk_now.min(remaining),
+            };
+            prod += 1;
+            if d == 0 {
+                break;
+            }
+            have += d;
+            remaining -= d;
+        }
+        Some(prod)
     }
 
     /// Record an oracle failure; the message starts with the property it falsifies.
@@ -173,15 +236,25 @@ impl<'a> Live<'a> {
         } else {
             None
         };
-        let stream_before = self.stream();
+        let needed = match op {
+            Op::Rq(n) => self.reads_needed(n),
+            Op::Ra(k) => self.reads_needed(k.saturating_add(1)),
+            _ => None,
+        };
         let res: String = match op {
-            Op::Rq(n) => match catch(|| self.r.request(n).to_vec()) {
+            Op::Rq(n) => match catch(|| self.r.request(n).len()) {
                 Some(b) => {
-                    if b.len() < n && !self.r.is_complete() {
-                        self.fail(i, format!("request({}) fell short ({}) but not complete", n, b.len()));
+                    if b < n && !self.r.is_complete() {
+                        self.fail(i, format!("request({}) fell short ({}) but not complete", n, b));
                     }
                     if n <= len_before && self.src.0.borrow().calls != calls_before {
                         self.fail(i, "request satisfied by buffered data called the source".into());
+                    }
+                    let prod = self.src.0.borrow().productive_calls - prod_before;
+                    if let Some(e) = needed {
+                        if prod != e {
+                            self.fail(i, format!("request({}) made {} successful reads, {} needed", n, prod, e));
+                        }
                     }
                     "ok".into()
                 }
@@ -189,9 +262,14 @@ impl<'a> Live<'a> {
             },
             Op::Ra(k) => match catch(|| self.r.request_byte_at_offset(k)) {
                 Some(Some(b)) => {
-                    let s = self.stream();
-                    if s.get(self.cursor + k) != Some(&b) {
+                    if self.stream_byte(self.cursor + k) != Some(b) {
                         self.fail(i, format!("request_byte_at_offset({}) = {} differs from stream", k, b));
+                    }
+                    let prod = self.src.0.borrow().productive_calls - prod_before;
+                    if let Some(e) = needed {
+                        if prod != e {
+                            self.fail(i, format!("request_byte_at_offset({}) made {} successful reads, {} needed", k, prod, e));
+                        }
                     }
                     if k < len_before && self.src.0.borrow().calls != calls_before {
                         self.fail(i, "byte request satisfied by buffered data called the source".into());
@@ -243,11 +321,12 @@ impl<'a> Live<'a> {
                 Some(b) => {
                     if n > len_before {
                         self.fail(i, format!("advance_with_buf({}) beyond {} did not panic", n, len_before));
-                    } else if stream_before.get(self.cursor..self.cursor + n) != Some(&b[..]) {
+                    } else if b.len() != n || !self.stream_has_at(self.cursor, &b) {
+                        // (the bytes were delivered before the call: the log only grows)
                         self.fail(i, format!("advance_with_buf({}) returned wrong bytes", n));
                     }
                     self.cursor += n;
-                    hex(&b)
+                    winhex(&b)
                 }
                 None => {
                     if n <= len_before {
@@ -268,6 +347,7 @@ impl<'a> Live<'a> {
             }
             Op::Sc(c) => {
                 self.r.set_chunk_size(c);
+                self.chunk_now = c;
                 "ok".into()
             }
             Op::Ck => {
@@ -291,7 +371,7 @@ impl<'a> Live<'a> {
         };
         // ---- observation + state oracle ----
         let blen = self.r.buf_len();
-        let stream = self.stream();
+        let stream_len = self.stream_len();
         let window: Option<Vec<u8>> = if blen <= self.total_len {
             Some(self.r.buf().to_vec())
         } else {
@@ -304,12 +384,9 @@ impl<'a> Live<'a> {
                 // part of the bytes taken over from the BufReader; afterwards it must hold
                 // everything delivered and not yet consumed.
                 let inner_called = self.src.0.borrow().calls > 0;
-                let ok = stream.len() >= self.cursor
-                    && if inner_called {
-                        &stream[self.cursor..] == &w[..]
-                    } else {
-                        stream[self.cursor..].starts_with(&w[..])
-                    };
+                let ok = stream_len >= self.cursor
+                    && (!inner_called || stream_len - self.cursor == w.len())
+                    && self.stream_has_at(self.cursor, w);
                 if !ok {
                     self.fail(i, "window differs from delivered stream behind the cursor".into());
                 }
@@ -407,7 +484,7 @@ pub fn gen_big_case(rng: &mut Rng) -> Case {
             match style { 0 => Ev::Give(chunk), 1 => Ev::Give(rng.range(1, chunk as u64) as usize), _ => Ev::Give(rng.range(chunk as u64 / 2, 2 * chunk as u64) as usize) }
         });
     }
-    let mut case = Case { chunk, fault, pre: vec![], pre_consumed: 0, data, data_spec: Some(spec), sched, ops: vec![] };
+    let mut case = Case { chunk, fault, pre: vec![], pre_consumed: 0, data, data_spec: Some(spec), pre_spec: None, big: false, sched, ops: vec![] };
     let mut live = Live::new(&case);
     for i in 0..rng.range(10, 60) {
         let blen = live.r.buf_len();
@@ -431,6 +508,9 @@ pub fn gen_big_case(rng: &mut Rng) -> Case {
 }
 
 pub fn gen_case(rng: &mut Rng, with_lies: bool, thorough: bool) -> Case {
+    if crate::eng_scan::cli_opt_has("scale") {
+        return gen_scale(rng, thorough);
+    }
     if !with_lies && rng.chance(1, 100) {
         return gen_big_case(rng);
     }
@@ -476,6 +556,8 @@ pub fn gen_case(rng: &mut Rng, with_lies: bool, thorough: bool) -> Case {
         pre_consumed,
         data,
         data_spec: None,
+        pre_spec: None,
+        big: false,
         sched,
         ops: vec![],
     };
@@ -542,6 +624,369 @@ pub fn gen_case(rng: &mut Rng, with_lies: bool, thorough: bool) -> Case {
         };
         case.ops.push(op);
         live.step(i as usize, op);
+    }
+    case
+}
+
+// ------------------------------------------------------------------ scale family (`--opt scale`)
+
+use crate::eng_scan::{scale_plan, ScaleDim};
+
+static SCALE_IDX: std::sync::atomic::AtomicUsize = std::sync::atomic::AtomicUsize::new(0);
+static SCALE_PLAN: std::sync::OnceLock<Vec<(usize, usize, bool)>> = std::sync::OnceLock::new();
+
+const D_POS: usize = 0; // stream position reached by streaming (small buffer), then short reads
+const D_BULK: usize = 1; // bytes asked for by one request (the buffer grows to that size)
+const D_PRE: usize = 2; // bytes taken over from a BufReader
+const D_CHUNK: usize = 3; // configured chunk size
+const D_END: usize = 4; // offset of the end of input / of the I/O error
+const D_READS: usize = 5; // number of refills made by one request
+
+pub fn gen_scale(rng: &mut Rng, thorough: bool) -> Case {
+    let idx = SCALE_IDX.fetch_add(1, std::sync::atomic::Ordering::Relaxed);
+    let plan = SCALE_PLAN.get_or_init(|| {
+        // model cost: a refill is a handful of passes over the whole buffer list
+        let dims = [
+            ScaleDim::new(10, 20, 23, 16, 1).rest_big(),
+            ScaleDim::new(10, 20, 22, 16, 1).rest_big(),
+            ScaleDim::new(10, 20, 22, 16, 1).rest_big(),
+            ScaleDim::new(10, 20, 22, 16, 1).rest_big(),
+            ScaleDim::new(10, 20, 22, 16, 1).rest_big(),
+            ScaleDim::new(10, 20, 21, 11, 1).model_max((1 << 12) + 64, (1 << 13) + 64).rest_big(),
+        ];
+        scale_plan(&mut rng.fork(), &dims, thorough)
+    });
+    if idx == 0 && std::env::var("VH_SCALE_INFO").is_ok() {
+        eprintln!("reader scale plan: {} cases per pass", plan.len());
+    }
+    let (dim, size, big) = plan[idx % plan.len()];
+    let mut case = gen_scale_case(rng, dim, size);
+    case.big = big;
+    case
+}
+
+/// read-schedule events of an interactive / pipe source: short reads, a few `Interrupted`
+fn short_events(rng: &mut Rng, chunk: usize, n: usize) -> Vec<Ev> {
+    let style = rng.below(4);
+    // `--opt scale+lies` (C14): now and then the source reports more bytes than it was given room for
+    let lies = crate::eng_scan::cli_opt_has("lies");
+    (0..n)
+        .map(|_| {
+            if rng.chance(1, 8) {
+                Ev::Intr
+            } else if lies && rng.chance(1, 10) {
+                Ev::Lie(rng.below(3) as usize)
+            } else {
+                Ev::Give(match style {
+                    0 => 1,
+                    1 => rng.range(1, 80) as usize,
+                    2 => *rng.pick(&[1usize, 2, chunk / 2 + 1, chunk.saturating_sub(1).max(1)]),
+                    _ => rng.range(1, chunk.max(2) as u64 - 1) as usize,
+                })
+            }
+        })
+        .collect()
+}
+
+/// A few requests, refills, advances under whatever schedule is left: the part of a scale case
+/// where the number of reads per refill, the window and the bookkeeping are looked at.
+fn probe(rng: &mut Rng, live: &mut Live, ops: &mut Vec<Op>, n: usize, sizes: &[usize]) {
+    for _ in 0..n {
+        let blen = live.r.buf_len();
+        let c = live.chunk_now;
+        let op = match rng.below(24) {
+            0..=5 => Op::Rm,
+            6..=10 => Op::Rq(blen + *rng.pick(&[1usize, 1, 2, 17, c.saturating_sub(1), c, c + 1])),
+            11 | 12 => Op::Ra(blen + *rng.pick(&[0usize, 0, 1, c])),
+            13 => Op::Rq(*rng.pick(&[0usize, blen, blen / 2])),
+            14 | 15 => Op::Ad(*rng.pick(&[blen, blen, blen / 2, blen.min(1)])),
+            16 | 17 => Op::Ab(blen.min(*rng.pick(&[1usize, 64, 1000, usize::MAX]))),
+            18 => Op::Sm,
+            19 => Op::Ck,
+            20 => Op::Sc(*rng.pick(&[1usize, 16, 512, 4096, 16384])),
+            21 => Op::Sc((*rng.pick(sizes)).min(1 << 17)),
+            22 => if rng.chance(1, 3) { Op::Ad(blen + 1) } else { Op::Ra(blen) },
+            _ => Op::Sp(if rng.chance(1, 2) { *rng.pick(sizes) as u64 } else { live.cursor as u64 }),
+        };
+        ops.push(op);
+        live.step(ops.len() - 1, op);
+    }
+}
+
+/// stream through the input: one request of about a chunk, then everything buffered is consumed
+fn stream_through(rng: &mut Rng, live: &mut Live, ops: &mut Vec<Op>, upto: usize, max_iter: usize) {
+    let mut push = |live: &mut Live, ops: &mut Vec<Op>, op: Op| {
+        ops.push(op);
+        live.step(ops.len() - 1, op);
+    };
+    for _ in 0..max_iter {
+        if live.cursor >= upto || live.r.is_at_end() {
+            break;
+        }
+        let c = live.chunk_now;
+        let blen = live.r.buf_len();
+        match rng.below(10) {
+            0 => push(live, ops, Op::Rm),
+            1 => push(live, ops, Op::Ra(blen + c - 1)),
+            _ => push(live, ops, Op::Rq(blen + c)),
+        }
+        let blen = live.r.buf_len();
+        let take = blen.min(upto - live.cursor);
+        match rng.below(12) {
+            0 => {
+                push(live, ops, Op::Ab(take.min(64)));
+                push(live, ops, Op::Ad(take - take.min(64)));
+            }
+            1 => push(live, ops, Op::Ab(take)),
+            2 => {
+                push(live, ops, Op::Ad(take / 2));
+                push(live, ops, Op::Sm);
+                push(live, ops, Op::Ad(take - take / 2));
+            }
+            _ => push(live, ops, Op::Ad(take)),
+        }
+    }
+}
+
+fn gen_scale_case(rng: &mut Rng, dim: usize, size: usize) -> Case {
+    let sizes = scale_sizes(10, 21);
+    let seed = rng.below(1000) as usize;
+    let gspec = |len: usize, seed: usize| -> Option<String> { if len == 0 { None } else { Some(format!("g{}.{}", len, seed)) } };
+    // a chunk size with which `total` bytes are at most `max_reads` full reads
+    let chunk_for = |rng: &mut Rng, total: usize, max_reads: usize| -> usize {
+        let c = match rng.below(8) {
+            0..=2 => 16 << 10,
+            3 => 4096,
+            4 => 64 << 10,
+            5 => 1000,
+            6 => (*rng.pick(&sizes)).min(1 << 17),
+            _ => rng.range(512, 40000) as usize,
+        };
+        c.max(total / max_reads + 1)
+    };
+    let mut case = Case { chunk: 16 << 10, fault: rng.chance(1, 3), pre: vec![], pre_consumed: 0, data: vec![], data_spec: None, pre_spec: None, big: false, sched: vec![], ops: vec![] };
+    let set_data = |case: &mut Case, len: usize| {
+        case.data_spec = gspec(len, seed);
+        case.data = case.data_spec.as_ref().map(|s| data_field(s)).unwrap_or_default();
+    };
+    match dim {
+        D_POS => {
+            // `size` bytes are consumed with exactly one full read per iteration; what follows
+            // arrives in short reads
+            let c = chunk_for(rng, size, 120);
+            case.chunk = c;
+            let (q, r) = (size / c, size % c);
+            let tr = rng.range(0, 4 * c as u64) as usize;
+            let tail = *rng.pick(&[0usize, 1, c / 2, 3 * c + 17, tr, 200]);
+            set_data(&mut case, size + tail);
+            for _ in 0..q + (r > 0) as usize {
+                if rng.chance(1, 16) {
+                    case.sched.push(Ev::Intr);
+                }
+                case.sched.push(Ev::Give(c));
+            }
+            case.sched.extend(short_events(rng, c, 40));
+            let mut live = Live::new(&case);
+            let mut ops = vec![];
+            let mut push = |live: &mut Live, ops: &mut Vec<Op>, op: Op| {
+                ops.push(op);
+                live.step(ops.len() - 1, op);
+            };
+            let mark_at = if rng.chance(1, 2) { rng.below(q as u64 + 1) as usize } else { usize::MAX };
+            for i in 0..q {
+                if i == mark_at {
+                    push(&mut live, &mut ops, if rng.chance(1, 3) { Op::Sp(*rng.pick(&sizes) as u64) } else { Op::Sm });
+                }
+                match rng.below(10) {
+                    0 => {
+                        push(&mut live, &mut ops, Op::Rm);
+                        push(&mut live, &mut ops, Op::Ad(c));
+                    }
+                    1 => {
+                        push(&mut live, &mut ops, Op::Ra(c - 1));
+                        push(&mut live, &mut ops, Op::Ab(c));
+                    }
+                    2 => {
+                        push(&mut live, &mut ops, Op::Rq(c));
+                        push(&mut live, &mut ops, Op::Ad(c / 2));
+                        push(&mut live, &mut ops, Op::Ad(c - c / 2));
+                    }
+                    _ => {
+                        push(&mut live, &mut ops, Op::Rq(c));
+                        push(&mut live, &mut ops, Op::Ad(c));
+                    }
+                }
+            }
+            if r > 0 {
+                push(&mut live, &mut ops, Op::Rq(r));
+                push(&mut live, &mut ops, Op::Ad(r));
+            }
+            let n = rng.range(8, 16) as usize;
+            probe(rng, &mut live, &mut ops, n, &sizes);
+            case.ops = ops;
+        }
+        D_BULK => {
+            // one request of `size` bytes in 1..4 reads, most of it consumed, a small chunk size
+            // from then on (realign and shrink at that buffer size), short reads
+            let q = *rng.pick(&[1usize, 1, 2, 3, 4]);
+            let c = match rng.below(4) {
+                0 if q == 1 => size + *rng.pick(&[1usize, 9, size]),
+                _ => (size + q - 1) / q,
+            };
+            case.chunk = c;
+            let tail = *rng.pick(&[0usize, 1, 100, 5000, c.min(70000)]);
+            set_data(&mut case, size + tail);
+            for _ in 0..q {
+                case.sched.push(Ev::Give(c));
+            }
+            case.sched.extend(short_events(rng, 512, 30));
+            let mut live = Live::new(&case);
+            let mut ops = vec![];
+            let mut push = |live: &mut Live, ops: &mut Vec<Op>, op: Op| {
+                ops.push(op);
+                live.step(ops.len() - 1, op);
+            };
+            if rng.chance(1, 3) {
+                push(&mut live, &mut ops, Op::Ra(size - 1));
+            } else {
+                push(&mut live, &mut ops, Op::Rq(size));
+            }
+            if rng.chance(1, 2) {
+                push(&mut live, &mut ops, Op::Sm);
+            }
+            let blen = live.r.buf_len();
+            let keep = *rng.pick(&[0usize, 1, 64, blen / 2, 5]).min(&blen);
+            if rng.chance(1, 3) {
+                push(&mut live, &mut ops, Op::Ab((blen - keep).min(64)));
+                push(&mut live, &mut ops, Op::Ad(blen - keep - (blen - keep).min(64)));
+            } else if rng.chance(1, 4) {
+                push(&mut live, &mut ops, Op::Ab(blen - keep));
+            } else {
+                push(&mut live, &mut ops, Op::Ad(blen - keep));
+            }
+            push(&mut live, &mut ops, Op::Sc(*rng.pick(&[16usize, 512, 4096, 16384])));
+            let n = rng.range(5, 9) as usize;
+            probe(rng, &mut live, &mut ops, n, &sizes);
+            case.ops = ops;
+        }
+        D_PRE => {
+            // a BufReader that holds `size` unread bytes (and has handed out `m` before)
+            case.pre_spec = gspec(size, seed + 1);
+            case.pre = data_field(case.pre_spec.as_ref().unwrap());
+            case.pre_consumed = *rng.pick(&[0usize, 0, 1, 7, 100, size.min(1 << 16)]);
+            let bulk = rng.chance(1, 3);
+            let c = if bulk { *rng.pick(&[size + 1, size, size / 2 + 1, size / 3 + 1]) } else { chunk_for(rng, size, 120) };
+            case.chunk = c;
+            let dlen = *rng.pick(&[0usize, 1, c.min(50000), 3 * c.min(20000) + 5]);
+            set_data(&mut case, dlen);
+            let ne = rng.range(0, 12) as usize;
+            case.sched = short_events(rng, c, ne);
+            let mut live = Live::new(&case);
+            let mut ops = vec![];
+            if bulk {
+                for op in [Op::Rq(size + dlen.min(5)), Op::Ab(64), Op::Sm] {
+                    ops.push(op);
+                    live.step(ops.len() - 1, op);
+                }
+                let blen = live.r.buf_len();
+                let op = Op::Ad(blen - blen.min(3));
+                ops.push(op);
+                live.step(ops.len() - 1, op);
+            } else {
+                stream_through(rng, &mut live, &mut ops, size + dlen, 130);
+            }
+            let n = rng.range(4, 8) as usize;
+            probe(rng, &mut live, &mut ops, n, &sizes);
+            case.ops = ops;
+        }
+        D_CHUNK => {
+            let c = size;
+            case.chunk = if rng.chance(1, 2) { c } else { 16 << 10 };
+            let dlen = *rng.pick(&[c - 1, c, c + 1, 2 * c + 1, c / 2, 3, 3 * c]).min(&((1 << 21) + 64).max(c + 1));
+            set_data(&mut case, dlen);
+            case.sched = match rng.below(3) {
+                0 => vec![],
+                1 => vec![Ev::Give(c - 1), Ev::Give(1), Ev::Give(c), Ev::Give(c + 1)],
+                _ => short_events(rng, c, 6),
+            };
+            let mut live = Live::new(&case);
+            let mut ops = vec![];
+            let mut push = |live: &mut Live, ops: &mut Vec<Op>, op: Op| {
+                ops.push(op);
+                live.step(ops.len() - 1, op);
+            };
+            if case.chunk != c {
+                push(&mut live, &mut ops, Op::Rq(1));
+                push(&mut live, &mut ops, Op::Sc(c));
+            }
+            push(&mut live, &mut ops, Op::Rq(1));
+            push(&mut live, &mut ops, Op::Ra(c - 1));
+            push(&mut live, &mut ops, Op::Rq(c + 1));
+            let blen = live.r.buf_len();
+            push(&mut live, &mut ops, Op::Ad(blen / 2));
+            push(&mut live, &mut ops, Op::Rm);
+            let blen = live.r.buf_len();
+            push(&mut live, &mut ops, Op::Ad(blen));
+            let n = rng.range(4, 8) as usize;
+            probe(rng, &mut live, &mut ops, n, &sizes);
+            case.ops = ops;
+        }
+        D_END => {
+            // the input ends (or fails) at offset `size`
+            case.fault = rng.chance(1, 2);
+            let c = chunk_for(rng, size, 100);
+            case.chunk = c;
+            set_data(&mut case, size);
+            // mostly full reads, some short ones
+            for _ in 0..rng.range(0, 30) {
+                case.sched.push(if rng.chance(1, 4) { Ev::Give(rng.range(1, c as u64) as usize) } else if rng.chance(1, 10) { Ev::Intr } else { Ev::Give(c) });
+            }
+            let mut live = Live::new(&case);
+            let mut ops = vec![];
+            let stop = size - *rng.pick(&[0usize, 0, 1, 10]).min(&size);
+            stream_through(rng, &mut live, &mut ops, stop, 140);
+            let mut push = |live: &mut Live, ops: &mut Vec<Op>, op: Op| {
+                ops.push(op);
+                live.step(ops.len() - 1, op);
+            };
+            let blen = live.r.buf_len();
+            push(&mut live, &mut ops, Op::Rq(blen + c + 1));
+            let blen = live.r.buf_len();
+            push(&mut live, &mut ops, Op::Ra(blen));
+            push(&mut live, &mut ops, Op::Rm);
+            push(&mut live, &mut ops, Op::Ck);
+            push(&mut live, &mut ops, Op::Ck);
+            push(&mut live, &mut ops, Op::Ab(blen.min(64)));
+            let blen = live.r.buf_len();
+            push(&mut live, &mut ops, Op::Ad(blen));
+            push(&mut live, &mut ops, Op::Ad(1));
+            push(&mut live, &mut ops, Op::Rq(5));
+            push(&mut live, &mut ops, Op::Rm);
+            case.ops = ops;
+        }
+        _ => {
+            // D_READS: one request that takes `size` refills
+            let c = *rng.pick(&[1usize, 1, 2, 3]);
+            case.chunk = c;
+            let tail = *rng.pick(&[0usize, 1, 50]);
+            set_data(&mut case, size * c + tail);
+            let mut live = Live::new(&case);
+            let mut ops = vec![];
+            let mut push = |live: &mut Live, ops: &mut Vec<Op>, op: Op| {
+                ops.push(op);
+                live.step(ops.len() - 1, op);
+            };
+            if rng.chance(1, 3) {
+                push(&mut live, &mut ops, Op::Ra(size * c - 1));
+            } else {
+                push(&mut live, &mut ops, Op::Rq(size * c));
+            }
+            let blen = live.r.buf_len();
+            push(&mut live, &mut ops, Op::Ad(blen - blen.min(*rng.pick(&[0usize, 1, 9]))));
+            let n = rng.range(4, 8) as usize;
+            probe(rng, &mut live, &mut ops, n, &sizes);
+            case.ops = ops;
+        }
     }
     case
 }
